@@ -1,1 +1,167 @@
-fn main() { println!("hi"); }
+//! Harness: drives the real `enr` crate on generated inputs and operation histories and writes
+//! traces for the Lean model driver.
+//!
+//!   enr-harness gen <family> <tier> <seed> <out-prefix> [chunks]
+//!   enr-harness replay <case-file> <out-file>
+
+mod cases;
+mod gen_dec;
+mod gen_hist;
+mod gen_misc;
+mod keys;
+mod obs;
+mod util;
+
+use cases::*;
+use std::io::Write;
+use util::*;
+
+const ALL_SCHEMES: [&str; 5] = ["k256", "libsecp", "ed", "comb", "toy"];
+
+fn write_chunks(prefix: &str, chunks: usize, parts: Vec<String>) {
+    // distribute the parts (whole cases / blocks of lines) round-robin over the chunk files
+    let mut files: Vec<std::fs::File> = (0..chunks)
+        .map(|i| std::fs::File::create(format!("{prefix}.{i}.trace")).expect("create trace"))
+        .collect();
+    for (i, p) in parts.iter().enumerate() {
+        files[i % chunks].write_all(p.as_bytes()).unwrap();
+    }
+}
+
+/// split a line-oriented trace into blocks that can be replayed independently: a block starts at
+/// every `dec` line whose buffer differs from the previous one, or at every other input line
+fn split_blocks(text: &str) -> Vec<String> {
+    let mut blocks = Vec::new();
+    let mut cur = String::new();
+    let mut last_buf = String::new();
+    let mut n_in_block = 0usize;
+    for line in text.lines() {
+        let head = line.split(' ').next().unwrap_or("");
+        let is_input = matches!(head, "dec" | "txt" | "json" | "decmany" | "declist" | "nid" | "ck");
+        if is_input {
+            let buf = if head == "dec" {
+                // keep the item and its suffixed variants together (prefix locality needs both)
+                let (_, m) = toks(line);
+                let b = m.get("buf").cloned().unwrap_or_default();
+                let il: usize = m.get("itemlen").and_then(|s| s.parse().ok()).unwrap_or(0);
+                b.chars().take(2 * il).collect::<String>()
+            } else {
+                String::new()
+            };
+            let same = head == "dec" && buf == last_buf;
+            if !same && n_in_block >= 16 {
+                blocks.push(std::mem::take(&mut cur));
+                n_in_block = 0;
+            }
+            if !same {
+                n_in_block += 1;
+            }
+            last_buf = buf;
+        }
+        cur.push_str(line);
+        cur.push('\n');
+    }
+    if !cur.is_empty() {
+        blocks.push(cur);
+    }
+    blocks
+}
+
+fn main() {
+    // panics inside the library are caught per call; keep their messages out of stderr
+    std::panic::set_hook(Box::new(|_| {}));
+    let args: Vec<String> = std::env::args().collect();
+    if args.len() < 2 {
+        eprintln!("usage: gen <family> <tier> <seed> <out-prefix> [chunks] | replay <case-file> <out-file>");
+        std::process::exit(2);
+    }
+    match args[1].as_str() {
+        "gen" => {
+            let fam = args[2].as_str();
+            let thorough = args[3] == "thorough";
+            let seed: u64 = args[4].parse().unwrap_or(1);
+            let prefix = &args[5];
+            let chunks: usize = args.get(6).and_then(|s| s.parse().ok()).unwrap_or(1);
+            let mut rng = Rng::new(seed ^ (fam.bytes().fold(0u64, |a, b| a * 131 + b as u64)));
+            let parts: Vec<String> = match fam {
+                "dec" | "stream" | "txt" | "nid" | "ck" => {
+                    let mut out = String::new();
+                    match fam {
+                        "dec" => gen_dec::gen_dec(&mut rng, thorough, &mut out),
+                        "stream" => gen_dec::gen_stream(&mut rng, thorough, &mut out),
+                        "txt" => gen_dec::gen_txt(&mut rng, thorough, &mut out),
+                        "nid" => gen_misc::gen_nid(&mut rng, thorough, &mut out),
+                        _ => gen_misc::gen_ck(&mut rng, thorough, &mut out),
+                    }
+                    split_blocks(&out)
+                }
+                "hist" | "size" | "acc" | "eq" => {
+                    let mut cs = Vec::new();
+                    match fam {
+                        "hist" => gen_hist::gen_hist(&ALL_SCHEMES, &mut rng, thorough, &mut cs),
+                        "size" => gen_hist::gen_size(&ALL_SCHEMES, &mut rng, thorough, &mut cs),
+                        "acc" => gen_hist::gen_acc(&ALL_SCHEMES[..4], &mut rng, thorough, &mut cs),
+                        _ => gen_hist::gen_eq(&ALL_SCHEMES, &mut rng, thorough, &mut cs),
+                    }
+                    // accessors after every step for hist/acc; the size and eq families only need
+                    // the record itself
+                    let with_acc = fam == "hist" || fam == "acc";
+                    cs.iter()
+                        .map(|c| {
+                            let mut s = String::new();
+                            exec_any(c, &mut s, with_acc);
+                            s
+                        })
+                        .collect()
+                }
+                _ => {
+                    eprintln!("unknown family {fam}");
+                    std::process::exit(2);
+                }
+            };
+            write_chunks(prefix, chunks, parts);
+        }
+        "replay" => {
+            let text = std::fs::read_to_string(&args[2]).expect("read case file");
+            let mut out = String::new();
+            let cs = parse_cases(&text);
+            for c in &cs {
+                exec_any(c, &mut out, true);
+            }
+            // stateless input lines are re-executed as they are
+            for line in text.lines() {
+                let (head, m) = toks(line);
+                let get = |k: &str| m.get(k).map(|s| s.as_str()).unwrap_or("-");
+                match head.as_str() {
+                    "dec" => {
+                        out.push_str(line);
+                        out.push('\n');
+                        gen_dec::decode_under(get("scheme"), &unhx(get("buf")), true, &mut out);
+                    }
+                    "txt" | "json" => {
+                        out.push_str(line);
+                        out.push('\n');
+                        let s = String::from_utf8_lossy(&unhx(get("s"))).to_string();
+                        if head == "json" {
+                            let j = serde_json::to_string(&s).unwrap();
+                            gen_dec::parse_under(get("scheme"), &j, true, &mut out);
+                        } else {
+                            gen_dec::parse_under(get("scheme"), &s, false, &mut out);
+                        }
+                    }
+                    "decmany" | "declist" => {
+                        out.push_str(line);
+                        out.push('\n');
+                        gen_dec::decode_many(get("scheme"), &unhx(get("buf")), head == "declist", &mut out);
+                    }
+                    _ => {}
+                }
+            }
+            std::fs::write(&args[3], out).expect("write trace");
+        }
+        _ => {
+            eprintln!("unknown command");
+            std::process::exit(2);
+        }
+    }
+}
